@@ -287,6 +287,9 @@ def run(pid, tier, repo, seed=0, replay=None, write=True):
     ctx.trusted |= set(spec['trusted'])
     for rid, fn in spec['rules']:
         ctx.run(rid, fn)
+    if tier == 'thorough' and replay is None:
+        from . import thorough
+        thorough.run(ctx, repo)
     if replay is not None:
         hit = [o for o in ctx.obl if o['status'] == VIOLATION and
                (o['rule'], o['construct'], o['key']) == (replay['rule'], replay['construct'], replay['key'])]
